@@ -597,3 +597,77 @@ pub fn docs_for_names() -> Vec<Document> {
     }
     docs
 }
+
+/// Size family: documents in which one dimension (members, arguments, imports, enum elements,
+/// annotation parameters, name segments, value elements, nesting depth) grows 1, 2, 4 ... 64.
+pub fn docs_for_sizes() -> Vec<Document> {
+    let mut docs = Vec::new();
+    for n in [1usize, 2, 3, 4, 5, 8, 9, 16, 17, 32, 33, 64] {
+        // members
+        let mut it = Item::new(ItemKind::Interface, "I");
+        for i in 0..n {
+            let mut m = Method::new(Ty::prim("int"), &format!("m{i}"), vec![Arg::new(Some("in"), Ty::string(), Some("a"))]);
+            m.code = Some(format!("{i}"));
+            it.members.push(Member::Method(m));
+        }
+        docs.push(Document::new("p", it));
+        // arguments
+        let mut it = Item::new(ItemKind::Interface, "I");
+        let args: Vec<Arg> = (0..n)
+            .map(|i| {
+                let mut a = Arg::new([None, Some("in"), Some("out"), Some("inout")][i % 4], [Ty::prim("int"), Ty::array(Ty::custom("a.B")), Ty::list(Ty::string())][i % 3].clone(), if i % 5 == 4 { None } else { Some("x") });
+                if let Some(nm) = &mut a.name {
+                    *nm = format!("x{i}");
+                }
+                if i % 7 == 6 {
+                    a.annots.push(Annot::simple("@A"));
+                }
+                a
+            })
+            .collect();
+        let mut m = Method::new(Ty::void(), "f", args);
+        m.args_trailing_comma = n % 2 == 0;
+        it.members.push(Member::Method(m));
+        docs.push(Document::new("p", it));
+        // imports and forward declarations
+        let mut d = Document::new("p", Item::new(ItemKind::Parcelable, "P"));
+        for i in 0..n {
+            d.imports.push(Import::new(&format!("a.b{}.C{i}", i % 3)));
+            d.decls.push(Decl::new(&if i % 2 == 0 { format!("Q{i}") } else { format!("r.Q{i}") }));
+        }
+        docs.push(d);
+        // enum elements
+        let mut it = Item::new(ItemKind::Enum, "E");
+        for i in 0..n {
+            it.elems.push(EnumElem::new(&format!("V{i}"), if i % 2 == 0 { Some(Scalar::Integer(format!("{i}"))) } else { None }));
+        }
+        it.elems_trailing_comma = n % 2 == 1;
+        docs.push(Document::new("p", it));
+        // annotation parameters, package segments, value elements, nesting depth, fields
+        let mut it = Item::new(ItemKind::Parcelable, "P");
+        it.annots.push(annot_with(
+            "@A",
+            (0..n).map(|i| (Box::leak(format!("k{i}").into_boxed_str()) as &str, if i % 2 == 0 { Some(Scalar::Integer(format!("{i}"))) } else { None })).collect(),
+            n % 2 == 0,
+        ));
+        let mut t = Ty::custom(&(0..n).map(|i| format!("s{i}")).collect::<Vec<_>>().join("."));
+        for i in 0..n.min(24) {
+            t = wrap(i % 4, t);
+        }
+        it.members.push(Member::Field(Field::new(t, "deep", None)));
+        it.members.push(Member::Const(Const::new(
+            Ty::array(Ty::prim("int")),
+            "K",
+            Value::Braces {
+                first: (0..n).map(|i| Value::Scalar(Scalar::Integer(format!("{i}")))).collect(),
+                rest: (0..n / 2).map(|i| Value::Scalar(Scalar::Integer(format!("{i}")))).collect(),
+                trailing: n % 2 == 0,
+            },
+        )));
+        for i in 0..n {
+            it.members.push(Member::Field(Field::new(Ty::prim("int"), &format!("f{i}"), None)));
+        }
+        docs.push(Document::new(&(0..n).map(|i| format!("pk{i}")).collect::<Vec<_>>().join("."), it));
+    }
+    docs
+}
